@@ -462,7 +462,10 @@ class Command:
         if not self.has_arguments():
             return False
         if self.iscomplete(atype, avalue):
-            return False
+            # A command without any required argument is complete from
+            # the start but still accepts its optional tagged arguments.
+            if not (atype == "tag" and self.required_args == 0):
+                return False
 
         if self.curarg is not None and "extra_arg" in self.curarg:
             condition = atype in self.curarg["extra_arg"]["type"] and (
@@ -529,6 +532,9 @@ class Command:
 
         if failed:
             raise BadArgument(self.name, avalue, self.args_definition[pos]["type"])
+        if pos >= len(self.args_definition):
+            # no definition matched this argument
+            return False
         return True
 
     def __contains__(self, name: str) -> bool:
